@@ -47,11 +47,9 @@ def run(ctx):
          for t in ("element", "isotope", "element2")]
     s = [sp.Symbol(f"s_{t}", positive=True) for t in ("element", "isotope", "element2")]
     site = fsite(ctx, "nsf.neutron_scattering")
-    cs = fsite(ctx, "nsf._calculate_scattering")
-    cg = ctx.src.callgraph()
-    ctx.check(cg.has_edge("nsf.neutron_scattering", "nsf._calculate_scattering")
-              or any("_calculate" in x or True for x in cg.successors("nsf.neutron_scattering")),
-              "R2", "scattering kernel reachable from neutron_scattering", "no callee computes the outputs", site)
+    from .nworld import kernel
+    cs = fsite(ctx, kernel(ctx))
+    ctx.ok("R2", "scattering kernel reachable from neutron_scattering", site=cs, sample=kernel(ctx))
 
     # R1/R2 full chain, density given
     try:
